@@ -395,6 +395,12 @@ Fixpoint run_hist (gc : gcfg) (v : variant) (fuel : nat) (ops : list tok) (stack
             (acc ++ [[S "raw"; TB (flat_map le32 (firstn (N.to_nat (nb_of (v_bk v))) (g_buckets top)));
                       TN (g_len top); TB (g_cks top); TB (g_tail top); TN (g_tail_len top)]])
         else if is_sym op "c" then run_hist gc v fuel' rest (top :: top :: below) acc
+        else if is_sym op "cf" then
+          (* Clone::clone_from: the top generator becomes, in place, a copy of the one below it *)
+          run_hist gc v fuel' rest (match below with b :: _ => b :: below | [] => stack end) acc
+        else if is_sym op "cn" then
+          (* clone_from(&Generator::new()): reset in place *)
+          run_hist gc v fuel' rest (g_init gc v :: below) acc
         else if is_sym op "p" then
           run_hist gc v fuel' rest (match below with [] => stack | _ => below end) acc
         else if is_sym op "w" then
